@@ -69,7 +69,7 @@ class NumpyFacade:
 # ---------------------------------------------------------------- builtins shadows
 class _IntMeta(type):
     def __instancecheck__(cls, o):
-        return isinstance(o, (builtins.int, SBit, SInt, SLin, SNeg, _np.integer))
+        return isinstance(o, (builtins.int, SBit, SInt, SLin, SNeg, _np.integer)) or type(o).__name__ == "SZInt"
 
 
 class s_int(metaclass=_IntMeta):
@@ -90,14 +90,14 @@ class s_int(metaclass=_IntMeta):
     def to_bytes(v, length=1, byteorder="big", signed=False):
         if isinstance(v, (SBit, SLin)):
             v = SInt.lift(v)
-        if isinstance(v, SInt):
+        if isinstance(v, SInt) or type(v).__name__ == "SZInt":
             return v.to_bytes(length, byteorder, signed=signed)
         return builtins.int.to_bytes(v, length, byteorder, signed=signed)
 
 
 class _BytesMeta(type):
     def __instancecheck__(cls, o):
-        return isinstance(o, (builtins.bytes, SBytes))
+        return isinstance(o, (builtins.bytes, SBytes)) or type(o).__name__ == "ZBytes"
 
 
 class s_bytes(metaclass=_BytesMeta):
@@ -108,7 +108,13 @@ class s_bytes(metaclass=_BytesMeta):
             return SBytes(x.v).n()
         if isinstance(x, (builtins.bytes, builtins.int, str)):
             return builtins.bytes(x, *a, **k)
+        if type(x).__name__ == "ZBytes":
+            return x
         items = list(x)
+        if any(type(i).__name__ == "SZInt" for i in items):
+            from .zint import ZBytes
+
+            return ZBytes(items)
         if any(is_sym(i) for i in items):
             return SBytes(items).n()
         return builtins.bytes(items)
@@ -182,9 +188,9 @@ def s_isinstance(o, t):
         return isinstance(t, type) and issubclass(o._cls, t)
     t = getattr(t, "_pyvc_real", t)
     if t is builtins.int or t is s_int:
-        return isinstance(o, (builtins.int, SBit, SInt, SLin, SNeg, _np.integer))
+        return isinstance(o, (builtins.int, SBit, SInt, SLin, SNeg, _np.integer)) or type(o).__name__ == "SZInt"
     if t is builtins.bytes or t is s_bytes:
-        return isinstance(o, (builtins.bytes, SBytes))
+        return isinstance(o, (builtins.bytes, SBytes)) or type(o).__name__ == "ZBytes"
     if t is _real_bitarray or t is SBits:
         return isinstance(o, (_real_bitarray, SBits))
     if t is builtins.bool:
